@@ -8,7 +8,7 @@ CONSTANTS Slots = {1, 2}
  MutOps = {"m"}
  DigVals = {1, 2}
  MaxLen = 1
- MCKinds = {"Construct", "Mutate", "CopyConstruct", "MoveConstruct", "CopyAssign", "MoveAssign", "MergeRef", "MergeMove", "Destroy"}
+ MCKinds = {"Construct", "Mutate", "CopyConstruct", "MoveConstruct", "CopyAssign", "MoveAssign", "MergeRef", "MergeCRef", "MergeMove", "Destroy"}
 INVARIANT Inv
 CONSTRAINT Bound
 CHECK_DEADLOCK FALSE
